@@ -202,7 +202,10 @@ func loadSearches(prop string, limited bool) func(p *run.Part, tier string) []*s
 			return &seqx.Search{Part: p, Check: "load", Cfg: cfg, Alphabet: Alphabet(3, false), Depth: d, Prefix: Prefixes[prefix], PrefixID: prefix,
 				Deadline: dl, OnState: loadProbe(p, prop, cfg, seen, limited, []int{1, 3})}
 		}
-		ss := []*seqx.Search{mk(CfgDef3, "", depth), mk(CfgHash3, "", 4)}
+		ss := []*seqx.Search{mk(CfgDef3, "", depth), mk(CfgHash3, "", 4), mk(CfgClk3, "", 4)}
+		em := mk(CfgDef3, "", 4)
+		em.Alphabet = WithEmpty(Alphabet(3, false))
+		ss = append(ss, em)
 		if !limited {
 			ss = append(ss, mk(CfgDef3, "+fork12", 1), mk(CfgDef3, "+chain20", 1))
 		}
